@@ -642,6 +642,9 @@ func (dr *dirRepo) indexLoad(force, locked bool) error {
 
 	mod, err := indexIngest(dr, &dr.index, dr.conf, locked)
 	if err != nil {
+		// the index in memory is half processed, the next load reads the file again and repeats the ingest
+		dr.timeIndex = time.Time{}
+		dr.timeCheck = time.Time{}
 		return err
 	}
 	if mod && !*dr.conf.Storage.ReadOnly {
